@@ -54,7 +54,10 @@ RULE_ADDED = (
               'fic. '
               ' '
               'Round 11: in every other late-answer round the TCP link is first lost and made a'
-              'gain after the server started; late answers of 29 / 30 / 35 / 61 s. ')
+              'gain after the server started; late answers of 29 / 30 / 35 / 61 s. '
+              ' '
+              'Round 12: rounds ended by a stop-worthy reconnection (device in an unknown mode '
+              'after a link failure), version requests spread among the device requests. ')
 RULE = RULE + " " + RULE_ADDED.strip()
 ASSUMPTIONS = [
     "schedules are those the OS produces under injected device delays; not enumerated",
@@ -82,7 +85,7 @@ def shards(tier, seed):
                  "fault_rounds": 1 if 1 <= i <= 3 else 0,
                  "late": [12.5, 35.0] if i in (4, 5) else [],
                  "slowsend_rounds": 1 if i in (5, 6, 7) else 0,
-                 "fatal_rounds": 2 if i in (3, 4, 6, 7) else 0,
+                 "fatal_rounds": 4 if i in (3, 4, 6, 7) else 0,
                  "quiet": [31.0, 601.0] if i in (0, 1, 5) else [],
                  "uihb_tail": [12.5] if i == 2 else []} for i in range(8)]
     slow = {0: [6.5], 1: [12.0], 2: [32.0], 3: [62.0], 4: [125.0]}
@@ -286,6 +289,8 @@ def run_round(acc, spec, rnd, rng, slow=None, fault=None, late=None, slowsend=Fa
         delay_rng = random.Random(rng.getrandbits(32))
 
         def hook(bus, apdu):
+            if fatal and fatal.get("interrupt") and bus.n_apdu - 1 == fatal["after"]:
+                dev.mode = 0x07
             if len(apdu) > 1 and apdu[1] in (0x10, 0x30, 0x21):
                 dev.state_epoch += 1
             if late and len(apdu) > 3 and apdu[1] == 0x20 and apdu[2] == 1 and \
@@ -365,6 +370,15 @@ def run_round(acc, spec, rnd, rng, slow=None, fault=None, late=None, slowsend=Fa
                     plan[c] = [("advance", byname["advance"]),
                                ("uihb", lambda: {"command": "uiHeartbeat", "version": 5,
                                                  "udValue": "33" * 32})] + plan[c]
+        if fatal and fatal.get("interrupt"):
+            # (version requests - which need no device - are spread among the others: they
+            # are answered normally whatever the link's state)
+            for c in range(nclients):
+                mixed = []
+                for entry in plan[c] + plan[c]:
+                    mixed.append(entry)
+                    mixed.append(("version", lambda: {"command": "version"}))
+                plan[c] = mixed
         jump = None
         if quiet:
             # quiet: after some traffic nothing happens for `quiet` seconds - by the clock
@@ -429,7 +443,13 @@ def run_round(acc, spec, rnd, rng, slow=None, fault=None, late=None, slowsend=Fa
             # other clients are connected and waiting: whatever the manager does on its way
             # out, it does not touch the device next to a request being served
             from ..simdev.transport import Fault
-            s.bus.arm_cmd({fatal["cmd"]: Fault("sw", sw=fatal["sw"])})
+            if fatal.get("interrupt"):
+                # ... or: the link fails and what is there afterwards is a device in a mode
+                # the bring-up answers with "stop" - the request that runs into that repair
+                # gets no verdict of its own (and certainly nobody else's reply)
+                s.bus.arm({fatal["after"]: Fault("read_error")})
+            else:
+                s.bus.arm_cmd({fatal["cmd"]: Fault("sw", sw=fatal["sw"])})
 
         def client(c):
             try:
@@ -576,14 +596,16 @@ def run_round(acc, spec, rnd, rng, slow=None, fault=None, late=None, slowsend=Fa
             bad("client-got-unparseable-reply", rid=rid, data=data[:100].decode("latin1"))
             continue
         if kind == "version":
-            acc.count("version_requests_after_a_quiet_period")
+            acc.count("version_requests_after_a_quiet_period" if quiet else
+                      "version_requests_among_device_requests")
             if reply.get("errorcode") != 0 or blocks.get(rid):
                 bad("version-request-not-answered-plainly", rid=rid, reply=reply,
                     own_exchanges=len(blocks.get(rid, [])))
             continue
         if kind == "advance_refused":
             acc.count("advances_refused_by_device")
-            if reply.get("errorcode") != -201 and not (fault and reply.get("errorcode") == -905):
+            if reply.get("errorcode") != -201 and not (
+                    (fault or fatal) and reply.get("errorcode") in (-905, None)):
                 bad("refused-advance-not-reported", rid=rid, reply=reply)
             continue
         if kind == "state" and reply.get("errorcode") == 0 and epochs.get(rid) is not None:
@@ -599,6 +621,9 @@ def run_round(acc, spec, rnd, rng, slow=None, fault=None, late=None, slowsend=Fa
                     break
             else:
                 acc.count("replies_matched")
+            continue
+        if fatal and reply == {}:
+            acc.count("requests_ended_without_a_verdict_by_a_stopping_manager")
             continue
         if fatal and reply.get("errorcode") not in (0, 1):
             acc.count("error_replies_in_rounds_ended_by_a_fatal_request")
@@ -675,7 +700,8 @@ def run_shard(spec, acc):
         acc.count("rounds_with_a_fatal_request")
         run_round(acc, dict(spec, max_clients=max(4, spec["max_clients"])), 6000 + k, rng,
                   fatal={"cmd": rng.choice([0x04, 0x04, 0x02]),
-                         "sw": rng.choice([0x6E00, 0x6D02, 0x6F00])})
+                         "sw": rng.choice([0x6E00, 0x6D02, 0x6F00])} if k % 2 == 0 else
+                  {"interrupt": True, "after": rng.randint(6, 40)})
     for k in range(spec.get("fault_rounds", 0)):
         acc.count("link_fault_rounds")
         run_round(acc, spec, 2000 + k, rng, fault={
